@@ -63,7 +63,12 @@ Small == Family(MaxNodesOpt)
 RECURSIVE WithOpts(_)
 WithOpts(k) == IF k > Len(Opts) THEN <<>>
                ELSE [j \in 1..Len(Small) |-> In(Small[j], Opts[k])] \o WithOpts(k + 1)
+\* two records whose key "a" holds values of any two shapes (an object in one record and an array in the
+\* other feed the same sub-table "T_a": once with a parent row, once without)
+Mixed == LET F2 == Family(2)
+         IN Prod(F2, F2, LAMBDA v1, v2 : <<"arr", << <<"obj", << <<"a", v1>> >> >>, <<"obj", << <<"a", v2>> >> >> >> >>)
 All == [j \in 1..Len(Plain) |-> In(Plain[j], Opts[1])] \o WithOpts(2)
+       \o [j \in 1..Len(Mixed) |-> In(Mixed[j], Opts[1])]
 N == Len(All)
 
 ASSUME "OUT_FILE" \in DOMAIN IOEnv => JsonSerialize(IOEnv.OUT_FILE, All)
